@@ -13,7 +13,7 @@ RULE = (
     "another reference; state = (template shape, line)"
 )
 BOUNDS = {
-    "quick": "all well-formed chunk sequences of length <=3 over 10 text chunks + 6 references; 2 files x plain, 1 file x onmatch/once for templates of length <=2",
+    "quick": "all well-formed chunk sequences of length <=3 over 10 text chunks + 8 references; 2 files x plain, 1 file x onmatch/once for templates of length <=2",
     "thorough": "all well-formed chunk sequences of length <=4 over 10 text chunks + 6 references, length <=3 over 12 references; 3 files x 3 forms",
 }
 CHUNK = 250
@@ -61,7 +61,7 @@ def templates(maxlen, refs):
 
 def cases(tier, seed):
     if tier == "quick":
-        for t in templates(3, REFS6):
+        for t in templates(3, REFS6 + [["r", "headers", "1"], ["r", "headers", "x y"]]):
             yield {"t": t, "file": 0, "form": "plain"}
             yield {"t": t, "file": 1, "form": "plain"}
             if len(t) <= 2:
